@@ -546,7 +546,7 @@ fn describe_exit(code: Option<i32>) -> String {
 pub fn run(tier: Tier, seed: u64) -> Report {
     let mut rep = Report::new("C14", tier, seed, RULE);
     rep.assume("'every build profile' is represented by release (overflow checks off) and a release-optimised profile with overflow-checks and debug-assertions on");
-    let cases = tier.pick(20_000u32, 1_000_000u32);
+    let cases = tier.pick(100_000u32, 3_000_000u32);
     for profile in ["release", "checked"] {
         let bin = profile_binary(profile);
         if !bin.exists() {
